@@ -390,3 +390,131 @@ Theorem teq_hash : forall a b,
   teq a b = true -> tclean a = true -> tclean b = true -> no_zero_real a = true ->
   thash a = thash b.
 Proof. intros. unfold thash. erewrite teq_hash_bytes; eauto. Qed.
+
+(* ------------------------------------------------------------------ *)
+(* ordering *)
+Theorem tcmp_eq_coherent : forall a b,
+  teq a b = true -> tcmp a b <> Some Lt /\ tcmp a b <> Some Gt.
+Proof.
+  intros a b E.
+  assert (H : tcmp a b = None \/ tcmp a b = Some Eq).
+  { destruct a, b; try discriminate; unfold tcmp; cbn [is_real is_int is_obj orb andb to_sf to_i64].
+    - left; reflexivity.
+    - right. cbn in E. apply Z.eqb_eq in E. subst. rewrite Z.compare_refl. reflexivity.
+    - right. cbn in E. apply SFeqb_true, E.
+    - right. unfold obj_cmp. rewrite E. reflexivity.
+    - right. unfold obj_cmp. rewrite E. reflexivity. }
+  destruct H as [H|H]; rewrite H; split; discriminate.
+Qed.
+
+Lemma obj_cmp_swap a b : obj_cmp b a = opp_oc (obj_cmp a b).
+Proof.
+  unfold obj_cmp. rewrite (teq_sym b a). destruct (teq a b); [reflexivity|].
+  rewrite (Nat.compare_antisym (tlen a) (tlen b)). destruct (tlen a ?= tlen b); reflexivity.
+Qed.
+
+(* PartialOrd is anti-symmetric in the strong sense: swapping the operands mirrors the answer *)
+Theorem tcmp_swap : forall a b, tcmp b a = opp_oc (tcmp a b).
+Proof.
+  intros a b. unfold tcmp.
+  rewrite (orb_comm (is_real b)), (orb_comm (is_int b)), (andb_comm (is_obj b)).
+  destruct (is_real a || is_real b); [apply SFcompare_swap|].
+  destruct (is_int a || is_int b).
+  - cbn [opp_oc]. rewrite (Z.compare_antisym (to_i64 a) (to_i64 b)). reflexivity.
+  - destruct (is_obj a && is_obj b); [apply obj_cmp_swap|reflexivity].
+Qed.
+
+Theorem tcmp_lt_asym : forall a b, tcmp a b = Some Lt -> tcmp b a = Some Gt.
+Proof. intros a b H. rewrite tcmp_swap, H. reflexivity. Qed.
+
+Theorem tcmp_int_int : forall i j, tcmp (TInt i) (TInt j) = Some (Z.compare i j).
+Proof. reflexivity. Qed.
+
+Theorem tcmp_real_real : forall f g, tcmp (TReal f) (TReal g) = Bcompare 53 1024 f g.
+Proof. intros. unfold tcmp. cbn [is_real orb to_sf]. apply SFcompare_Bcompare. Qed.
+
+Theorem teq_real_real : forall f g,
+  teq (TReal f) (TReal g) = match Bcompare 53 1024 f g with Some Eq => true | _ => false end.
+Proof. intros. cbn [teq]. unfold SFeqb. rewrite SFcompare_Bcompare. reflexivity. Qed.
+
+Definition is_number (a : tval) : bool := is_int a || is_real a.
+
+(* nil counts as the integer 0 against a number *)
+Theorem tcmp_nil_as_zero : forall b, is_number b = true ->
+  tcmp TNil b = tcmp (TInt 0) b /\ tcmp b TNil = tcmp b (TInt 0).
+Proof. intros b H. destruct b; try discriminate; split; reflexivity. Qed.
+
+(* a string or a table counts as its length against a number *)
+Theorem tcmp_obj_as_len : forall a b, is_obj a = true -> is_number b = true ->
+  tcmp a b = tcmp (TInt (Z.of_nat (tlen a))) b /\ tcmp b a = tcmp b (TInt (Z.of_nat (tlen a))).
+Proof. intros a b Ha Hb. destruct a; try discriminate; destruct b; try discriminate; split; reflexivity. Qed.
+
+(* two objects: equal -> Equal; else by length, equal lengths unordered *)
+Theorem tcmp_obj_obj : forall a b, is_obj a = true -> is_obj b = true ->
+  tcmp a b = if teq a b then Some Eq
+             else match Nat.compare (tlen a) (tlen b) with Eq => None | c => Some c end.
+Proof. intros a b Ha Hb. destruct a; try discriminate; destruct b; try discriminate; reflexivity. Qed.
+
+Theorem tcmp_str_by_len : forall x y, length x <> length y ->
+  tcmp (TStr x) (TStr y) = Some (Nat.compare (length x) (length y)).
+Proof.
+  intros x y H. rewrite tcmp_obj_obj by reflexivity. cbn [teq tlen].
+  destruct (list_eqb N.eqb x y) eqn:E.
+  - apply list_eqb_N_eq in E. congruence.
+  - destruct (length x ?= length y) eqn:C; try reflexivity. apply Nat.compare_eq in C. contradiction.
+Qed.
+
+(* ------------------------------------------------------------------ *)
+(* counterexamples, by computation *)
+Definition r_zero : f64 := B754_zero 53 1024 false.
+Definition r_negzero : f64 := B754_zero 53 1024 true.
+Definition r_nan : f64 := B754_nan 53 1024 false 2251799813685248%positive eq_refl.
+
+(* signed zero: equal, hashed differently (the exception stated in the property) *)
+Theorem signed_zero_hash_refuted :
+  teq (TReal r_zero) (TReal r_negzero) = true /\ thash (TReal r_zero) <> thash (TReal r_negzero).
+Proof. split; [reflexivity|]. vm_compute. discriminate. Qed.
+
+Theorem nan_not_reflexive : teq (TReal r_nan) (TReal r_nan) = false.
+Proof. reflexivity. Qed.
+
+(* function objects are never equal, not even to themselves *)
+Theorem fn_not_reflexive : forall h a,
+  teq (TFn h a) (TFn h a) = false /\ teq (TNative h) (TNative h) = false /\
+  teq (TClosure h a) (TClosure h a) = false.
+Proof. intros; repeat split. Qed.
+
+(* a table with a key that is not equal to itself (function object, NaN): `iter` skips the entry,
+   len() counts it.  It is == to tables with other content, with another hash; and == is not
+   transitive through it. *)
+Definition t_fnkey : tval := TTable [(TFn 1 0, TInt 1); (TInt 2, TInt 3)].
+Definition t_23_45 : tval := TTable [(TInt 2, TInt 3); (TInt 4, TInt 5)].
+Definition t_23_67 : tval := TTable [(TInt 2, TInt 3); (TInt 6, TInt 7)].
+
+Theorem fn_key_eq_hash_refuted :
+  teq t_fnkey t_23_45 = true /\ no_nan t_fnkey = true /\ no_zero_real t_fnkey = true /\
+  thash t_fnkey <> thash t_23_45.
+Proof. repeat split; try reflexivity. vm_compute. discriminate. Qed.
+
+Theorem teq_trans_refuted :
+  teq t_23_45 t_fnkey = true /\ teq t_fnkey t_23_67 = true /\ teq t_23_45 t_23_67 = false /\
+  no_nan t_fnkey = true.
+Proof. repeat split; reflexivity. Qed.
+
+(* ------------------------------------------------------------------ *)
+(* CaoHasher: successive `write`s (each stores hash & MASK) = one write of the concatenation,
+   which is how [thash] is defined *)
+Lemma fnv_step_mask x c : fnv_step (N.land x mask32) c = fnv_step x c.
+Proof.
+  unfold fnv_step. f_equal. apply N.bits_inj. intros n.
+  rewrite !N.land_spec, !N.lxor_spec, N.land_spec.
+  destruct (N.testbit mask32 n); [rewrite !andb_true_r; reflexivity|rewrite !andb_false_r; reflexivity].
+Qed.
+
+Theorem fnv_bytes_app h a b : fnv_bytes h (a ++ b) = fnv_write (fnv_write h a) b.
+Proof.
+  unfold fnv_write, fnv_bytes. rewrite fold_left_app.
+  destruct b as [|c b]; cbn [fold_left].
+  - rewrite <- N.land_assoc, N.land_diag. reflexivity.
+  - rewrite fnv_step_mask. reflexivity.
+Qed.
